@@ -109,7 +109,7 @@ def install():
             _emit(ev='BeginVote', conn=_cname_of_instance(self._normal_storage), ok=False)
 
     def before_invfin(self, tid, oids, committing):
-        ctx.committer = _cname_of_instance(committing)
+        ctx.committer = 'u' if committing is None else _cname_of_instance(committing)
         _emit(ev='FinishStart', conn=ctx.committer, tid=tid.hex())
 
     def after_invalidate(self, a, k, r, e):
@@ -144,6 +144,36 @@ def install():
         if n is not None and e is None:
             _emit(ev='Close', conn=n)
 
+    TU = sys.modules['ZODB.DB'].TransactionalUndo
+
+    def undone_oids(tu):
+        """the objects the undone transactions wrote, read from the storage itself (not from the adapter)"""
+        import base64
+        st = tu._db.storage
+        names = set()
+        for t64 in tu._tids:
+            tid = base64.decodebytes(t64 + b'\n')
+            for txn in st.iterator(tid, tid):
+                for r in txn:
+                    if r.oid in name_of_oid:
+                        names.add(name_of_oid[r.oid])
+        return sorted(names)
+
+    def after_undo_vote(self, a, k, r, e):
+        if getattr(ctx, 'recording', False):
+            _emit(ev='UndoVote', conn='u', ok=(e is None), oids=undone_oids(self))
+
+    def after_undo_commit(self, a, k, r, e):
+        if e is not None and getattr(ctx, 'recording', False):      # UndoError out of storage.undo()
+            _emit(ev='UndoVote', conn='u', ok=False, oids=undone_oids(self))
+
+    def after_undo_abort(self, a, k, r, e):
+        if getattr(ctx, 'recording', False):
+            _emit(ev='UndoAbort', conn='u')
+
+    wrap(TU, 'tpc_vote', after=after_undo_vote)
+    wrap(TU, 'commit', after=after_undo_commit)
+    wrap(TU, 'tpc_abort', after=after_undo_abort)
     wrap(FileStorage, 'lastTransaction', after=after_last)
     wrap(MappingStorage, 'lastTransaction', after=after_last)
     wrap(I, 'poll_invalidations', before=before_poll, after=after_poll)
@@ -167,7 +197,7 @@ def install():
     _installed = True
 
 
-OPS = ('r', 'wx', 'wy', 'rw', 'rx', 'co')
+OPS = ('r', 'wx', 'wy', 'rw', 'rx', 'co', 'u1', 'u2')
 
 
 def gen_programs(rng, nthreads=2, length=4):
@@ -205,6 +235,8 @@ def scenario(job):
     name_of_oid[c0.root()['x']._p_oid] = 'x'
     name_of_oid[c0.root()['y']._p_oid] = 'y'
     init_tid = storage.lastTransaction().hex()
+    import base64
+    init_id = base64.encodebytes(storage.lastTransaction()).rstrip()
     c0.close()
     db = ZODB.DB(storage, pool_size=4)        # a second DB on the same storage: fresh adapter, empty pool
     Sc = sched.S = sched.Sched(seed, **(kw or {}))
@@ -231,6 +263,22 @@ def scenario(job):
                 if op == 'co':
                     c.close()
                     c = db.open(tm)
+                    continue
+                if op in ('u1', 'u2'):
+                    if kind != 'file':
+                        continue
+                    from ZODB.POSException import UndoError
+                    tmu = transaction.TransactionManager()
+                    log = db.undoLog(0, 2 if op == 'u2' else 1)
+                    ids = [d['id'] for d in log if d['id'] != init_id]
+                    if not ids:
+                        continue
+                    try:
+                        tmu.begin()
+                        db.undoMultiple(ids, tmu.get())
+                        tmu.commit()
+                    except (UndoError, ConflictError):
+                        tmu.abort()
                     continue
                 tm.begin()
                 r = c.root()
